@@ -166,6 +166,9 @@ func Eq(a, b T) T {
 	if isConstTerm(a) && isConstTerm(b) {
 		return False
 	}
+	if (isFreshAlloc(a) || isFreshAlloc(b) || strings.HasPrefix(a, "(gv_sub_") || strings.HasPrefix(b, "(gv_sub_")) && distinctTerms(a, b) {
+		return False
+	}
 	return app("=", a, b)
 }
 
@@ -285,6 +288,14 @@ func distinctTerms(x, y string) bool {
 	if (isFreshAlloc(x) && (isLiteral(y) || strings.HasPrefix(y, "p_"))) || (isFreshAlloc(y) && (isLiteral(x) || strings.HasPrefix(x, "p_"))) {
 		return true
 	}
+	// a reference read from the initial heap denotes an object that existed at entry (or nil): never a fresh allocation
+	// nor a by-value part of one
+	if isInitialLoad(x) && (isFreshAlloc(y) || (strings.HasPrefix(y, "(gv_sub_") && isFreshAlloc(subRoot(y)))) {
+		return true
+	}
+	if isInitialLoad(y) && (isFreshAlloc(x) || (strings.HasPrefix(x, "(gv_sub_") && isFreshAlloc(subRoot(x)))) {
+		return true
+	}
 	// a by-value part of an object that exists (parameter) or was allocated here is never a later/other fresh allocation
 	if isFreshAlloc(x) && strings.HasPrefix(y, "(gv_sub_") {
 		if r := subRoot(y); isFreshAlloc(r) || strings.HasPrefix(r, "p_") {
@@ -315,6 +326,8 @@ func distinctTerms(x, y string) bool {
 	}
 	return false
 }
+
+func isInitialLoad(t string) bool { return strings.HasPrefix(t, "(select H0_") }
 
 func subRoot(t string) string {
 	for strings.HasPrefix(t, "(gv_sub_") {
